@@ -91,7 +91,7 @@ class Contract:
     def __init__(self, key: str, spec: Callable[[Ctx], Tuple[List[Any], List[Case]]],
                  scenarios: Callable[[], List[Scenario]],
                  props: Sequence[str] = (), public: bool = True,
-                 summarize: bool = True, inline_in: Sequence[str] = (),
+                 summarize: bool = True, inline: Sequence[str] = (),
                  notes: str = ""):
         self.key = key
         self.spec = spec
@@ -99,6 +99,7 @@ class Contract:
         self.props = list(props)
         self.public = public
         self.summarize = summarize
+        self.inline = list(inline)     # callees inlined instead of summarised
         self.notes = notes
 
     # -- use as a summary at a call site -----------------------------------
